@@ -260,8 +260,18 @@ pub fn run(rep: &mut Report, rng: &mut Rng, thorough: bool) {
         let kind = *r.pick(&["text", "random", "mixed", "code"]);
         let dlen = r.range(1, 60000) as usize;
         let data = gen_data(&mut r, kind, dlen);
-        let which = i % 5;
-        let lz = gen_lzopts(&mut r, which != 0 && which != 3, 1 << 16, false);
+        let which = i % 7;
+        let mut lz = gen_lzopts(&mut r, which != 0 && which != 3 && which != 6, 1 << 16, false);
+        if which >= 5 {
+            // MT writers: many small units so that the queue fills up (units are handed to the sink from
+            // several places: while waiting for room in the queue, at flush and at finish)
+            lz.dict = 4096;
+            lz.preset = None;
+            lz.nice = lz.nice.min(32);
+        }
+        let mt_len = r.range(40000, 140000) as usize;
+        let data = if which >= 5 { gen_data(&mut r, kind, mt_len) } else { data };
+        let mt_workers = r.range(1, 4) as u32;
         let xo = {
             let mut o = gen_xzopts(&mut r, 1 << 16, data.len());
             o.lz = lz.clone();
@@ -273,7 +283,7 @@ pub fn run(rep: &mut Report, rng: &mut Rng, thorough: bool) {
             }
             o
         };
-        let name = ["lzma", "lzma2", "xz", "lzip", "xz-filters"][which as usize];
+        let name = ["lzma", "lzma2", "xz", "lzip", "xz-filters", "lzma2-mt", "lzip-mt"][which as usize];
         let run_with = |sink: FaultWriter| -> (Outcome<Vec<u8>>, usize) {
             let mut calls = 0usize;
             let o = guard(|| {
@@ -292,6 +302,22 @@ pub fn run(rep: &mut Report, rng: &mut Rng, thorough: bool) {
                     }
                     2 | 4 => {
                         let mut w = XZWriter::new(sink, xo.to_opts())?;
+                        w.write_all(&data)?;
+                        let s = w.finish()?;
+                        (s.out, s.calls)
+                    }
+                    5 => {
+                        let mut o = LZMA2Options { lzma_options: lz.to_opts(), chunk_size: None };
+                        o.set_chunk_size(std::num::NonZeroU64::new(4096));
+                        let mut w = LZMA2WriterMT::new(sink, o, mt_workers)?;
+                        w.write_all(&data)?;
+                        let s = w.finish()?;
+                        (s.out, s.calls)
+                    }
+                    6 => {
+                        let mut o = LZIPOptions { lzma_options: lz.to_opts(), member_size: None };
+                        o.set_member_size(std::num::NonZeroU64::new(4096));
+                        let mut w = LZIPWriterMT::new(sink, o, mt_workers)?;
                         w.write_all(&data)?;
                         let s = w.finish()?;
                         (s.out, s.calls)
